@@ -14,12 +14,31 @@ def gen_timing(rng, tier):
             for _ in range(n):
                 cases.append(["timing evsys=%s mode=%s timeout=%d tries=%d gap=%d" % (
                     ev, mode, rng.choice([120, 150, 200, 300]), rng.choice([1, 2, 2, 3]), rng.choice([50, 200, 400]))])
+        for _ in range(n):
+            # a new query with an earlier deadline than the one the thread is asleep on (older query on a later retry round)
+            cases.append(["timing evsys=%s mode=staggered timeout=%d tries=%d gap=%d" % (ev, rng.choice([250, 300]), rng.choice([4, 5]), 50)])
+            # a deadline that expires while the thread is busy with the previous one (slow application callback)
+            cases.append(["timing evsys=%s mode=slowcb timeout=%d tries=1 gap=%d" % (ev, rng.choice([250, 300]), 50)])
     return cases
 
 
 def mon_timing(case, out):
     bad = []
     for line in out:
+        m = re.match(r"timing staggered (\w+) busy_sends=(\d+) first=(-?\d+) retx=(-?\d+) due=(\d+) done=(\d)", line)
+        if m:
+            ev, bs, first, retx, due, done = m.group(1), int(m.group(2)), int(m.group(3)), int(m.group(4)), int(m.group(5)), int(m.group(6))
+            if bs < 3:
+                bad.append(("thread-harness-output", "staggered/%s: older query only sent %d times" % (ev, bs)))
+            elif first < 0:
+                bad.append(("never-sent", "staggered/%s: the new query was never transmitted" % ev))
+            elif retx < 0 and not done:
+                bad.append(("late-retransmission", "staggered/%s: a query sent while the event thread slept on a later deadline was not "
+                            "retransmitted within %d ms + 2.5 s (its own deadline)" % (ev, due)))
+            elif retx >= 0 and retx - first > due + 400:
+                bad.append(("late-retransmission", "staggered/%s: first retransmission %d ms after the first send, deadline %d ms: the "
+                            "event thread slept past the new query's deadline" % (ev, retx - first, due)))
+            continue
         m = re.match(r"timing (\w+) (\w+) completed=(\d) status=(\d+) elapsed=(-?\d+) budget=(\d+)", line)
         if not m:
             if "unsupported" not in line:
